@@ -10,7 +10,7 @@ set_option linter.unnecessarySeqFocus false
 
 namespace Deepali
 
-/-- letter notation, upper case: accepted as is (code as it stands). -/
+/-- all four spellings of all 27 triples are normalised to the triple. -/
 theorem order_upper (a b c : Axis) :
     eulerRotationOrder (some (orderName a b c)) 3 = .ok (orderName a b c) := by
   cases a <;> cases b <;> cases c <;> rfl
@@ -19,32 +19,13 @@ theorem order_lower (a b c : Axis) :
     eulerRotationOrder (some (orderNameLower a b c)) 3 = .ok (orderName a b c) := by
   cases a <;> cases b <;> cases c <;> rfl
 
-/-- composition notation: the code as it stands raises AttributeError for every triple. -/
-theorem order_notation_raises (a b c : Axis) :
-    eulerRotationOrder (some (orderNotation a b c)) 3 = .error "err:type" := by
+theorem order_notation (a b c : Axis) :
+    eulerRotationOrder (some (orderNotation a b c)) 3 = .ok (orderName a b c) := by
   cases a <;> cases b <;> cases c <;> rfl
 
-theorem order_notation_upper_raises (a b c : Axis) :
-    eulerRotationOrder (some (orderNotationUpper a b c)) 3 = .error "err:type" := by
+theorem order_notation_upper (a b c : Axis) :
+    eulerRotationOrder (some (orderNotationUpper a b c)) 3 = .ok (orderName a b c) := by
   cases a <;> cases b <;> cases c <;> rfl
-
-/-- repaired function (`re.sub`): all four spellings give the same triple. -/
-theorem orderFixed_upper (a b c : Axis) :
-    eulerRotationOrderFixed (some (orderName a b c)) 3 = .ok (orderName a b c) := by
-  cases a <;> cases b <;> cases c <;> rfl
-
-theorem orderFixed_lower (a b c : Axis) :
-    eulerRotationOrderFixed (some (orderNameLower a b c)) 3 = .ok (orderName a b c) := by
-  cases a <;> cases b <;> cases c <;> rfl
-
-theorem orderFixed_notation (a b c : Axis) :
-    eulerRotationOrderFixed (some (orderNotation a b c)) 3 = .ok (orderName a b c) := by
-  cases a <;> cases b <;> cases c <;> rfl
-
-theorem orderFixed_notation_upper (a b c : Axis) :
-    eulerRotationOrderFixed (some (orderNotationUpper a b c)) 3 = .ok (orderName a b c) := by
-  cases a <;> cases b <;> cases c <;> rfl
-
 
 theorem isXYZ_char {ch : Char} (h : isXYZ ch = true) : ∃ a : Axis, ch = a.char := by
   simp only [isXYZ, Bool.or_eq_true, decide_eq_true_eq] at h
@@ -89,23 +70,7 @@ theorem matchXYZ3_sound {o : List Char} (h : matchXYZ3 o = true) :
 /-- rejection: the only strings `euler_rotation_order` returns for `ndim = 3` are the 27 triples. -/
 theorem order_sound {arg : Option (List Char)} {o : List Char} (h : eulerRotationOrder arg 3 = .ok o) :
     ∃ a b c : Axis, o = orderName a b c ∨ o = orderName a b c ++ ['\n'] := by
-  simp only [eulerRotationOrder] at h
-  split at h
-  · simp at *
-  · split at h
-    · simp at *
-    · split at h
-      · simp at h
-      · split at h
-        · next hm =>
-          simp only [Except.ok.injEq] at h
-          subst h
-          exact matchXYZ3_sound hm
-        · simp at h
-
-theorem orderFixed_sound {arg : Option (List Char)} {o : List Char} (h : eulerRotationOrderFixed arg 3 = .ok o) :
-    ∃ a b c : Axis, o = orderName a b c ∨ o = orderName a b c ++ ['\n'] := by
-  unfold eulerRotationOrderFixed at h
+  unfold eulerRotationOrder at h
   rw [if_neg (by decide), if_neg (by decide)] at h
   dsimp only at h
   have key : ∀ s : List Char, (if matchXYZ3 s = true then (Except.ok s : Except String (List Char))
